@@ -35,9 +35,29 @@ def _compile(args):
     return (cmd, r.returncode, r.stderr)
 
 
+class _Lock:
+    """inter-process lock (several checks may run at the same time and share .work/)"""
+    def __init__(self, name):
+        os.makedirs(WORK, exist_ok=True)
+        self.path = os.path.join(WORK, name + ".lock")
+    def __enter__(self):
+        import fcntl
+        self.fh = open(self.path, "w")
+        fcntl.flock(self.fh, fcntl.LOCK_EX)
+        return self
+    def __exit__(self, *a):
+        import fcntl
+        fcntl.flock(self.fh, fcntl.LOCK_UN); self.fh.close()
+
+
 def build_cut(sanitize=False):
     """Build library, sb_patch and the in-process harness from /repo's *working tree* (hooks on).
     Returns the build directory. Cached by content hash of the sources."""
+    with _Lock("cut"):
+        return _build_cut(sanitize)
+
+
+def _build_cut(sanitize=False):
     key = tree_hash() + ("-san" if sanitize else "")
     out = os.path.join(WORK, "cut", key)
     stamp = os.path.join(out, "ok")
@@ -77,7 +97,8 @@ def build_cut(sanitize=False):
 
 
 def lake_build(targets=("PatchModel", "modeldriver")):
-    r = sh(["lake", "build", *targets], cwd=LEAN)
+    with _Lock("lake"):
+        r = sh(["lake", "build", *targets], cwd=LEAN)
     return r.returncode == 0, r.stdout + r.stderr
 
 
